@@ -1,6 +1,6 @@
 (* Extraction of the C16 model and specification to OCaml.
    ExtrOcamlBasic only; N / positive / nat stay the extracted inductive types. *)
-From EP Require Import Base.Bytes IoFault.Spec IoFault.Model IoFault.Propagate.
+From EP Require Import Base.Bytes IoFault.Spec IoFault.Model IoFault.Propagate IoFault.ReadPropagate.
 From Coq Require Import Extraction ExtrOcamlBasic.
 Extraction Language OCaml.
 Extraction "m_c16.ml"
@@ -17,4 +17,7 @@ Extraction "m_c16.ml"
   run_x x_single_write x_ipv4_header_write x_ip_auth_header_write x_ipv6_raw_ext_header_write
   x_tcp_header_write x_x4_write_internal x_x6_write_internal x_ip_headers_write_v4
   x_ip_headers_write_v6 x_final_write_with_net
+  run_y y_read_fixed y_ipv4_header_read y_ipv6_header_read y_tcp_header_read y_icmpv4_header_read
+  y_macsec_header_read y_arp_packet_read y_ip_auth_read y_ipv6_raw_ext_read y_ipv6_frag_read
+  y_x4_read y_x6_read y_ip_headers_read
   L_ETH L_SLL.
